@@ -17,8 +17,8 @@ pub fn prop() -> Prop {
         id: "C01",
         level: "exploration",
         runs: |t| match t {
-            Tier::Quick => 1400,
-            Tier::Thorough => 26000,
+            Tier::Quick => 5000,
+            Tier::Thorough => 60000,
         },
         generate,
         exec,
